@@ -4,11 +4,13 @@ import (
 	"bytes"
 	"encoding/binary"
 	"encoding/gob"
+	"errors"
 	"fmt"
 	"sync"
 
 	"github.com/RoaringBitmap/roaring"
 	"go.etcd.io/bbolt"
+	berrors "go.etcd.io/bbolt/errors"
 )
 
 func NewBigIndexWriter(db *bbolt.DB, tempDB *bbolt.DB) (*BigIndexWriter, error) {
@@ -85,6 +87,28 @@ func (idx *BigIndexWriter) AddRow(values map[string]string) (uint32, error) {
 	}
 
 	return rowID, nil
+}
+
+// Close releases the resources held by the writer, i.e. its pending transaction on the
+// temporary database. It needs to be called when a writer is abandoned without calling
+// Flush, as closing the temporary database would otherwise block forever waiting for that
+// transaction to finish. Calling it after Flush is harmless.
+func (idx *BigIndexWriter) Close() error {
+	idx.mtx.Lock()
+	defer idx.mtx.Unlock()
+
+	if idx.tempTx == nil {
+		return nil
+	}
+
+	err := idx.tempTx.Rollback()
+	idx.tempTx = nil
+
+	if err != nil && !errors.Is(err, berrors.ErrTxClosed) {
+		return err
+	}
+
+	return nil
 }
 
 func (idx *BigIndexWriter) Flush() error {
